@@ -209,7 +209,24 @@ func runR04_2(c *Ctx, r *R) {
 					}
 				}
 			}
+			// "exactly": no other status code may suppress the response
+			other := ""
+			for _, cd := range pathConds(sends[0].Block()) {
+				if b, ok := cd.V.(*ssa.BinOp); ok && (b.Op == token.EQL || b.Op == token.NEQ) {
+					x, y := b.X, b.Y
+					if _, isK := x.(*ssa.Const); isK {
+						x, y = y, x
+					}
+					if k, ok := y.(*ssa.Const); ok && k.Value != nil && k.Value.Kind() == constant.String && typeIs(x.Type(), statusPath, "Code") {
+						if v := constant.StringVal(k.Value); v != skipConst {
+							other = v
+						}
+					}
+				}
+			}
 			switch {
+			case other != "":
+				r.Bad(key2, sends[0].Pos(), "the response is also withheld when the handler's status code is %q: the caller of a normal request never receives the status its handler produced", other)
 			case !guarded:
 				r.Bad(key2, sends[0].Pos(), "the response is not conditioned on st.Code != CodeSkipResponse: a oneway request would receive a response (or a normal request none)")
 			case !carries:
